@@ -131,17 +131,23 @@ pub fn c01(t: &dyn TypeOps, cx: &mut Cx) {
 
 /// ε-copy round trip == original == full copy (C02); with `c03`, the span/allocation oracle.
 pub fn c02(t: &dyn TypeOps, cx: &mut Cx, c03: bool) {
+    c02_entry(t, cx, c03, false);
+    // the same oracles on the stream that `serialize_with_schema` writes (first values)
+    c02_entry(t, cx, c03, true);
+}
+
+fn c02_entry(t: &dyn TypeOps, cx: &mut Cx, c03: bool, schema: bool) {
     let ty = t.ty();
-    let n = build(t, cx);
+    let n = if schema { t.len().min(cx.tier.pick(2, 6)) } else { build(t, cx) };
     let mut arena = Arena::new(1 << 16);
-    let growing: Vec<Option<usize>> = if c03 { vec![] } else { LARGE_SCALES.iter().map(|k| first_growing(t, n, *k)).collect() };
+    let growing: Vec<Option<usize>> = if c03 || schema { vec![] } else { LARGE_SCALES.iter().map(|k| first_growing(t, n, *k)).collect() };
     for i in 0..n {
         let want = t.val(i);
         let enc = encode(&ty, &want, t.type_name());
         cx.evals += 1;
         let nblocks = enc.events.iter().filter(|e| matches!(e, Ev::Block { borrowed: true, .. })).count();
-        cx.case(case_hash(cx, &want), !c03 || nblocks > 0);
-        let (bytes, _) = match t.ser(i) {
+        if !schema { cx.case(case_hash(cx, &want), !c03 || nblocks > 0); }
+        let (bytes, _) = match if schema { t.ser_schema(i).map(|s| { let n = s.bytes.len(); (s.bytes, n) }) } else { t.ser(i) } {
             Out::Ok(b) => b,
             o => { cx.outcome(&format!("ser-{}", o.class())); cx.violate(&format!("ser-{}", o.class()), json!({"value": vdesc(i, &want), "observed": o.describe()})); continue; }
         };
@@ -429,6 +435,24 @@ pub fn c07(t: &dyn TypeOps, cx: &mut Cx) {
             o => { cx.violate(&format!("ser-{}", o.class()), json!({"value": vdesc(i, &want), "observed": o.describe()})); continue; }
         }
         if i >= cx.tier.pick(3, 12) { continue; }
+        // the returned count is the number of bytes the writer RECEIVED, also when the writer
+        // accepts a request only in part (a short write at any one point, then the rest)
+        {
+            let mut probe = ScriptWriter::new(Script::default());
+            let _ = t.ser_script(i, &mut probe);
+            let points: Vec<usize> = probe.log.iter().filter(|(_, fl, len)| !*fl && *len > 1).map(|(p, _, _)| *p).collect();
+            for p in points.into_iter().take(cx.tier.pick(48, 400)) {
+                for alt in [0u8, 1] {
+                    cx.evals += 1;
+                    let mut w = ScriptWriter::new(Script { dev: vec![(p, alt)] });
+                    match t.ser_script(i, &mut w) {
+                        Out::Ok(cnt) if cnt == w.accepted.len() && cnt == enc.bytes.len() => cx.outcome("short-write-count-exact"),
+                        Out::Ok(cnt) => cx.violate("serialize-count-differs-from-bytes-received-after-short-write", json!({"value": vdesc(i, &want), "point": p, "returned": cnt, "sink_received": w.accepted.len(), "fault_free_len": enc.bytes.len()})),
+                        o => cx.violate(&format!("short-write-ser-{}", o.class()), json!({"value": vdesc(i, &want), "point": p, "observed": o.describe()})),
+                    }
+                }
+            }
+        }
         for r in 0..nres {
             cx.evals += 1;
             let s = match t.inner_ser(i, r) {
